@@ -19,8 +19,9 @@ Oracle formulations (DESIGN.md, C03, corrected false alarms are heeded):
   * "the single space consumed at each wrap point": every hidden space is consumed by its own wrap
     point (a line boundary that is not a newline); `'a  a'` at width 1 hides two spaces at two wrap points.
   * "lines made solely of zero-width characters" is read on laid-out lines: a hidden run of zero-width
-    characters must be a whole laid-out line of its own (it starts after the text start, a newline or a
-    consumed space and ends at a newline or the text end).
+    characters must be a whole laid-out line of its own (it starts at the text start or after a line
+    break -- newline, consumed space or plain wrap -- and ends at a line break or the text end); a hidden
+    zero-width character on the same laid-out line as a shown character is a violation.
   * "text that cannot be displayed at all": a text containing a character wider than the width, in the
     wrapping modes; the whole text then gives one empty line (tests/test_text_layout.py pins `[[]]`).
 """
@@ -230,11 +231,10 @@ def walk(m, lines):
                     problems.append(f"characters {b}..{a2 - 1} are skipped inside laid-out line {k}")
             p = max(p, d["ranges"][-1][1])
         else:
-            q = p
-            while q < m.n and m.kind[q] == "z" and not shown[q]:
-                q += 1
-            if q > p and (q == m.n or m.kind[q] == "l"):
-                p = q  # a laid-out line made solely of zero-width characters
+            # a laid-out line with no segment may stand for a run of zero-width characters (a line made
+            # solely of zero-width characters); what ends it is judged like any other line end below
+            while p < m.n and m.kind[p] == "z" and not shown[p]:
+                p += 1
         if k < last:
             if p < m.n and m.kind[p] == "l":
                 bounds.append(("nl", p + 1))
@@ -252,13 +252,25 @@ def walk(m, lines):
 # ------------------------------------------------------------------------------------------------
 # one case, all clauses
 # ------------------------------------------------------------------------------------------------
+def _cause(exc):
+    """Diagnostic label only (groups the reported failures by root cause); not part of the oracle."""
+    mo = re.match(r"ValueError: \((-?\d+), (\d+), (\d+)\)", exc)
+    if mo and "text_layout.py" in exc:
+        if mo.group(2) == mo.group(3):
+            return "LayoutSegment rejects a text segment with no characters: only the cut half of a double-width character is inside the window"
+        return "LayoutSegment rejects a 0-column text segment made of zero-width characters"
+    if exc.startswith("CanvasError") and "wider than the maxcol" in exc:
+        return "the rendered row is wider than the width"
+    return "other"
+
+
 def judge(m, mode, width, wrap, align, obs=None):
     """-> dict clause -> (ok, nontrivial, why). Only the clauses that apply to the case are present."""
     if obs is None:
         obs = observe(m, width, wrap, align)
     out = {}
     if "exc" in obs:
-        out["no-exception"] = (False, True, f"raised {obs['exc']}")
+        out["no-exception"] = (False, True, f"raised [{_cause(obs['exc'])}] {obs['exc']}")
         return out, obs
     out["no-exception"] = (True, True, "")
     layout, rows = obs["layout"], obs["rows"]
@@ -359,7 +371,7 @@ def judge(m, mode, width, wrap, align, obs=None):
 def judge_unencodable(m, mode, width, wrap, align):
     obs = observe(m, width, wrap, align)
     if "exc" in obs:
-        return False, f"raised {obs['exc']}", obs
+        return False, f"raised [{_cause(obs['exc'])}] {obs['exc']}", obs
     ws = [decode_row(r, mode, m.enc) for r in obs["rows"]]
     ok = all(w == width for w in ws) and obs["before"] == obs["after"] == len(obs["rows"]) == len(obs["layout"])
     return ok, f"row widths {ws}, rows {obs['before']}/{obs['after']}/{len(obs['rows'])}", obs
